@@ -684,7 +684,7 @@ class C06(core.Prop):
             if 'error' in res:
                 stmt = case['statements'][op['stmt']]
                 names = out_names(stmt[2].get('sel') or features_of(stmt[1]))
-                dup = 'Length mismatch' in res['error'] and len(set(names)) < len(names)
+                dup = ('Length mismatch' in res['error'] or 'Duplicate column names' in res['error']) and len(set(names)) < len(names)
                 out.append((k, 'C06/duplicate-output-names-unreadable' if dup else None, f"read {k} failed: {res['error']}"))
                 continue
             got, truth = bag(res['rows']), bag(res['truth'])
